@@ -3,6 +3,8 @@ package props
 import (
 	"context"
 	"fmt"
+	"os"
+	"regexp"
 	"strings"
 	"sync"
 	"time"
@@ -45,6 +47,30 @@ type c12Sys struct {
 	failures    []string
 	initFP      string
 	finalProbed bool
+	snapID      map[any]string // snapshot -> canonical id of the Store that published it (thread.step)
+}
+
+var c12PtrRe = regexp.MustCompile(`0x[0-9a-f]+`)
+
+// c12StateKey is the shared-state part of the state key of the unbounded phase: the published
+// snapshots in publication order (who published each, its fingerprint at publication with
+// pointers renamed to their order of first appearance, whether it still has that
+// fingerprint) and which one is current.
+func c12StateKey(sys any) string {
+	s := sys.(*c12Sys)
+	var b strings.Builder
+	for _, sn := range s.snaps {
+		now := larking.VerifFingerprint(sn.snap)
+		fmt.Fprintf(&b, "%s|%v|%s\n", s.snapID[sn.snap], now == sn.fp, now)
+	}
+	fmt.Fprintf(&b, "cur=%s", s.snapID[s.snaps[len(s.snaps)-1].snap]) // the last Store is the current value (the hook runs at the Store itself)
+	names := map[string]int{}
+	return c12PtrRe.ReplaceAllStringFunc(b.String(), func(p string) string {
+		if _, ok := names[p]; !ok {
+			names[p] = len(names)
+		}
+		return fmt.Sprintf("#%d", names[p])
+	})
 }
 
 type snapRec struct {
@@ -146,6 +172,7 @@ func (s *c12Sys) tick() int64 {
 
 func (s *c12Sys) record(client int, in c12In, fn func() c12Out) {
 	call := s.tick()
+	sched.Logf("call:%d %s %s", client, in.Op, in.Svc+in.Via)
 	out := fn()
 	ret := s.tick()
 	s.hmu.Lock()
@@ -409,13 +436,17 @@ func c12Scenarios(thorough bool) []*e3Scenario {
 		return &e3Scenario{Name: name, Desc: desc, Threads: threads, PoolPoints: false,
 			Setup: func() any {
 				s := newC12Sys(pre)
+				s.snapID = map[any]string{s.snaps[0].snap: "pre"}
 				vatomic.StoreHook = func(v any) {
 					s.snaps = append(s.snaps, snapRec{v, larking.VerifFingerprint(v)})
+					s.snapID[v] = fmt.Sprintf("t%d.%d", sched.ThreadID(), sched.ThreadSteps())
 				}
+				vatomic.LoadHook = func(v any) { sched.Observe("load " + s.snapID[v]) }
 				return s
 			},
 			Check:    c12Check(pre),
-			Teardown: func(sys any) { vatomic.StoreHook = nil; sys.(*c12Sys).b3.Conn().Close() },
+			StateKey: c12StateKey,
+			Teardown: func(sys any) { vatomic.StoreHook, vatomic.LoadHook = nil, nil; sys.(*c12Sys).b3.Conn().Close() },
 		}
 	}
 	rq := func(svc, via string) c12Op { return c12Op{"req", svc, via} }
@@ -462,6 +493,15 @@ func c12Scenarios(thorough bool) []*e3Scenario {
 			c12Thread(0, "writer", []c12Op{{op: "dropB3"}, {op: "regB3"}}),
 			c12Thread(1, "reader1", []c12Op{rq("S2", "/route"), rq("S2", "/grpc")}),
 			c12Thread(2, "reader2", []c12Op{rq("S2", "/implicit"), rq("S1", "/route")})))
+	mini := mk("mini-register-vs-reader", "RegisterService(S2) while one reader asks S2 twice (small enough for a stateless search over every interleaving: cross-check of the state abstraction)", "",
+		c12Thread(0, "writer", []c12Op{{op: "regS2"}}),
+		c12Thread(1, "reader1", []c12Op{rq("S2", "/route"), rq("S2", "/grpc")}))
+	mini.CrossCheck = true
+	mini2 := mk("mini-drop-vs-reader", "DropConn(b3) while one reader asks S2 and S1 (cross-check of the state abstraction on the removal path)", "b3",
+		c12Thread(0, "writer", []c12Op{{op: "dropB3"}}),
+		c12Thread(1, "reader", []c12Op{rq("S2", "/route"), rq("S1", "/route"), rq("S2", "/implicit")}))
+	mini2.CrossCheck = true
+	scs = append(scs, mini, mini2)
 	if thorough {
 		scs = append(scs,
 			mk("two-writers-two-readers", "RegisterService(S2) and DropConn(b3) race while two readers ask", "b3",
@@ -476,8 +516,13 @@ func c12Scenarios(thorough bool) []*e3Scenario {
 func runC12(c *Ctx) {
 	r := c.Run
 	bound, per, maxExec := 2, 40*time.Second, int64(0)
+	e3Unbounded, e3UnboundedBudget = true, 25*time.Second
 	if c.Thorough() {
 		bound, per = 4, 6*time.Minute
+		e3UnboundedBudget = 10 * time.Minute
+	}
+	if os.Getenv("VERIF_E3_ONLY_UNBOUNDED") != "" {
+		bound = -1 // demonstration knob: skip the preemption-bounded phases, the unbounded stateful search alone decides
 	}
 	r.Rule(fmt.Sprintf("scenarios of 3-4 controlled threads (writers: RegisterService, a registration failing on its second method, RegisterConn, DropConn; readers: 2-3 requests each over rule route / implicit route / gRPC for S1, S2, S3) on the real Mux; every interleaving of the scheduling points (Mutex lock/unlock, atomic.Value Load/Store, WaitGroup ops) with at most %d preemptions, bounds iterated from 0; oracles per schedule: porcupine linearizability of the call/return history (plus one request per service issued after all threads returned) against the registry specification, immutability of every published snapshot (fingerprint at Store time vs. end of schedule), a failing registration leaves the snapshot fingerprint unchanged, no panic, no deadlock; distinct = (scenario, observed outcome vector)", bound))
 	r.Assume("unsynchronised accesses between scheduling points are not interleaved by the explorer; they are covered by the published-snapshot immutability monitor and by the separate free-running -race pass", "pool operations are not scheduling points in C12 scenarios (C13 covers them)")
